@@ -278,6 +278,8 @@ pub struct Sim {
     pub wire_filter: Option<Box<dyn FnMut(&mut Dgram, &mut Rng) -> bool>>,
     /// record model-validation trace lines (request lines for the Lean driver + implementation's answers)
     /// never advance virtual time beyond this instant (used for bounded settle phases)
+    /// per node: may the peer migrate (server with migration enabled)?
+    pub path_may_migrate: [bool; 2],
     pub time_cap: Option<u64>,
     pub stop_requested: bool,
     pub model_trace: bool,
@@ -287,6 +289,23 @@ pub struct Sim {
 
 pub fn addr(port: u16) -> SocketAddr {
     SocketAddr::new(IpAddr::V6(Ipv6Addr::LOCALHOST), port)
+}
+
+fn addr_num(a: &SocketAddr) -> u64 {
+    let ip = match a.ip() {
+        IpAddr::V6(v) => v.segments()[7] as u64 + ((v.segments()[6] as u64) << 16),
+        IpAddr::V4(v) => u32::from(v) as u64,
+    };
+    ip * 100_000 + a.port() as u64
+}
+
+/// path-machine projection for the Lean `pathm` trace checker:
+/// "addr validated challengeSome pending prev timer mayMigrate"
+pub fn path_state(base: Instant, s: &Snapshot, may_migrate: bool) -> String {
+    let p = |x: &quinn_proto::verif::PathSnap, sep: &str| format!("{}{sep}{}{sep}{}{sep}{}", addr_num(&x.remote), x.validated as u8, x.challenge as u8, x.challenge_pending as u8);
+    let prev = s.prev_path.as_ref().map_or("-".to_string(), |x| p(x, ":"));
+    let t = s.timers[4].map_or("-".to_string(), |i| (i.saturating_duration_since(base).as_nanos() as u64).to_string());
+    format!("{} {prev} {t} {}", p(&s.path, " "), may_migrate as u8)
 }
 
 /// lifecycle projection of a snapshot for the Lean `life` trace checker: "st err closeFlag closeTimer idleTimer"
@@ -353,6 +372,7 @@ impl Sim {
             dropped: 0,
             faults: BTreeMap::new(),
             wire_filter: None,
+            path_may_migrate: [false, true],
             time_cap: None,
             stop_requested: false,
             model_trace: false,
@@ -621,6 +641,11 @@ impl Sim {
                 if self.model_ops.len() < 400_000 {
                     self.model_ops.push(format!("life timeout {nowoff} {}", life_state(self.base, &b)));
                     self.model_impl.push(life_state(self.base, &a));
+                    if b.state == "established" && a.state == "established" {
+                        let mm = self.path_may_migrate[node];
+                        self.model_ops.push(format!("pathm timeout {nowoff} {}", path_state(self.base, &b, mm)));
+                        self.model_impl.push(path_state(self.base, &a, mm));
+                    }
                 }
             }
             let next = nc.conn.poll_timeout().map(|t| t.saturating_duration_since(self.base).as_nanos() as u64);
@@ -679,6 +704,28 @@ impl Sim {
                     if self.model_ops.len() < 400_000 {
                         self.model_ops.push(format!("life {ev} {}", life_state(self.base, &b)));
                         self.model_impl.push(life_state(self.base, &a));
+                    }
+                }
+                // path machine (C15), established connections only; the kind of packet is classified from the
+                // observed outcome, the model predicts the rest of the path state
+                if b.state == "established" && a.state == "established" && self.model_ops.len() < 400_000 {
+                    let mm = self.path_may_migrate[node];
+                    let src = addr_num(&from);
+                    let pev = if migrated {
+                        let pto3 = toff(a.timers[4]).map_or(0, |t| t.saturating_sub(nowoff));
+                        Some(format!("pkt {src} 1 {nowoff} {pto3}"))
+                    } else if !b.path.validated && a.path.validated && b.path.challenge {
+                        Some(format!("response {src} match"))
+                    } else if a.total_authed_packets > b.total_authed_packets || from != b.path.remote {
+                        // any other packet (not triggering a migration)
+                        Some(format!("pkt {src} 0 {nowoff} 0"))
+                    } else {
+                        None
+                    };
+                    if let Some(pev) = pev {
+                        // sends between observations may clear `pending`; it is compared as observed before the event
+                        self.model_ops.push(format!("pathm {pev} {}", path_state(self.base, &b, mm)));
+                        self.model_impl.push(path_state(self.base, &a, mm));
                     }
                 }
                 if self.model_ops.len() < 400_000 {
